@@ -1561,8 +1561,8 @@ class Interp:
         for x in e["elems"]:
             v, env, pc = self.eval(x, env, pc)
             items.append(v)
-        if items and all(isinstance(x, VChar) for x in items):
-            # `[0u8]`, `[b'a', b'b']`: a byte array is a byte string
+        if items and all(isinstance(x, VChar) for x in items) and all(x.get("k") == "lit" and x.get("ty") == "int" for x in e["elems"]):
+            # `[0u8]`, `[1u8, 2]`: an array of u8 literals is a byte string (char arrays such as ['/', '.'] stay char sets)
             return VStr(BStr([x.e for x in items], bv(len(items)))), env, pc
         return VVec(items), env, pc
 
